@@ -512,7 +512,9 @@ func (s *session) run(in input) {
 			thr := math.Exp2(s.floor+marginBits) + 0.25*D
 			M := maxAbs(msgs[i].v)
 			c.Count("precision_checks", 1)
-			c.Max("max_err_minus_floor_log2_x10", int64(10*(math.Log2(e+1e-300)-s.floor)))
+			if e <= thr {
+				c.Max("max_passing_err_over_threshold_x1000", int64(1000*e/thr))
+			}
 			c.Check(e <= thr, sig+"|message-error-above-announced-precision"+msgPreds, func() string {
 				return fmt.Sprintf("ciphertext %d/%d: max |out - model| = 2^%.2f > 2^%.2f (frozen floor of the set 2^%.1f + %g bits, documented sin distortion of this message 2^%.2f); |message|max=%.3g, |out-in|=2^%.2f (config %s, input %+v)",
 					i, nct, math.Log2(e), math.Log2(thr), s.floor, marginBits, math.Log2(D+1e-300), M, math.Log2(raw+1e-300), s.cf.Name, in)
